@@ -18,7 +18,7 @@
 (* Element values are canonical (1..len): the container is value-agnostic; *)
 (* the driver substitutes distinct fresh values when it replays.           *)
 (***************************************************************************)
-EXTENDS SVec
+EXTENDS SVecImpl
 
 CONSTANTS NA, NB,            \* inline capacities of the slots
           Profile,           \* "one": all unary calls on A | "two": binary calls + movers | "max": near max_size
@@ -34,7 +34,8 @@ VARIABLES st, hist, everBig, allocCount
 
 cfg == [na |-> NA, nb |-> NB, isStd |-> IsStd, pocca |-> POCCA, pocma |-> POCMA, pocs |-> POCS, ae |-> AE,
         soccc |-> SOCCC, max |-> MaxSize, copyable |-> Copyable, nothrowMove |-> NothrowMove,
-        tracked |-> FALSE, vector |-> FALSE]
+        nothrowMoveCtor |-> NothrowMove, nothrowMoveAssign |-> NothrowMove, hasMove |-> TRUE, construct |-> FALSE,
+        tracked |-> (Profile = "impl"), vector |-> FALSE]
 
 Absent == [p |-> FALSE]
 
@@ -392,6 +393,8 @@ CtorFromAll(d, s) ==
 Enabled ==
   CASE Profile \in {"one", "max", "wide"} ->
          IF st.A.p THEN UnaryAll("A") ELSE CtorAll("A")
+    [] Profile = "impl" ->
+         {o \in (IF st.A.p THEN UnaryAll("A") ELSE CtorAll("A")) : o.op \in Modelled}
     [] Profile = "two" ->
          UNION { IF st[c].p THEN UnaryMovers(c) ELSE CtorMovers(c) : c \in {"A", "B"} }
          \cup UNION { IF st[d].p /\ st[s].p THEN BinaryAll(d, s) ELSE {} : d \in {"A", "B"}, s \in {"A", "B"} }
@@ -413,28 +416,43 @@ Norm(s0) ==
 
 StateOf(ln) == [A |-> ln.post.A, B |-> ln.post.B, blocks |-> ln.blocks]
 
+OpTuple(o) == <<o.op, o.c, o.s, o.a>>
+
 Init ==
   /\ st = [A |-> Absent, B |-> Absent, blocks |-> <<>>]
   /\ hist = <<>>
   /\ everBig = FALSE
   /\ allocCount = 0
 
-OpTuple(o) == <<o.op, o.c, o.s, o.a>>
+\* one explored transition: the predicted line must satisfy the contract; emit it as a stimulus
+Take(o, ln, extra) ==
+  LET post   == StateOf(ln)
+      checks == OpChecks(cfg, st, post, ln) \cup extra
+      bad    == {t \in checks : t[3] = 0}
+  IN /\ Assert(bad = {}, <<"policy / L2 violates the contract", o, ln.k, bad>>)
+     /\ PrintT(<<"S", hist, OpTuple(o), ln.out>>)
+     /\ st' = Norm(post)
+     /\ hist' = Append(hist, OpTuple(o))
+     /\ allocCount' = allocCount + Len(Allocs(ln.evs))
+     /\ everBig' = (everBig \/ (\E c \in {"A", "B"} : post[c].p /\ Len(post[c].e) > NOf(cfg, c))
+                            \/ (o.op = "reserve" /\ o.a[1] > NOf(cfg, o.c))
+                            \/ ln.out # "ok")      \* a call that failed was asking for more than it got
+
+\* the request part of a line (what the caller passes), for L2
+Req(o, k) ==
+  LET p == Predict(o) IN      \* the policy only supplies the fresh values the driver would use
+  [t |-> "op", op |-> o.op, c |-> o.c, s |-> o.s, a |-> o.a, v |-> p.v, k |-> <<k, 0>>, id |-> "mc", i |-> 0]
 
 Next ==
-  \E o \in Enabled :
-    LET ln     == Predict(o)
-        post   == StateOf(ln)
-        checks == OpChecks(cfg, st, post, ln)
-        bad    == {t \in checks : t[3] = 0}
-    IN /\ Assert(bad = {}, <<"policy violates the contract", o, bad>>)
-       /\ PrintT(<<"S", hist, OpTuple(o), ln.out>>)
-       /\ st' = Norm(post)
-       /\ hist' = Append(hist, OpTuple(o))
-       /\ allocCount' = allocCount + Len(Allocs(ln.evs))
-       /\ everBig' = (everBig \/ (\E c \in {"A", "B"} : post[c].p /\ Len(post[c].e) > NOf(cfg, c))
-                              \/ (o.op = "reserve" /\ o.a[1] > NOf(cfg, o.c))
-                              \/ ln.out = "length_error")
+  IF Profile = "impl" THEN
+    \* L2: every throw point of every modelled call.  The exceptional exits lead to states that are explored on.
+    \E o \in Enabled :
+      LET l0 == Exec(cfg, st, Req(o, 0)) IN
+      \E k \in 0..l0.nf :
+        LET ln == IF k = 0 THEN l0 ELSE Exec(cfg, st, Req(o, k)) IN
+        Take(o, ln, MemChecks(cfg, st, StateOf(ln), ln))
+  ELSE
+    \E o \in Enabled : Take(o, Predict(o), {})
 
 Spec == Init /\ [][Next]_<<st, hist, everBig, allocCount>>
 
